@@ -735,7 +735,9 @@ def E2_cif_tags(repo, clause):
                           slot="block-guard:%s" % lens[0].args[0].attr,
                           positive=not nonempty and not (isinstance(k0, (int, float)) and ((op_ is ast.GtE and k0 <= 0) or (op_ is ast.Gt and k0 < 0))),
                           undecided=not nonempty and (isinstance(k0, (int, float)) and ((op_ is ast.GtE and k0 <= 0) or (op_ is ast.Gt and k0 < 0)))))
-    floor("E2", "loop-block size tests in the CIF writer", n_sz, 4)
+    if n_sz < 4:
+        obs.append(Ob("E2", clause, w, w.node, False, "only %d loop-block size tests found in the CIF writer (4 confirmed by reading: bonds, angles, dihedrals, impropers)" % n_sz,
+                      construct="def save_p1_cif block guards", slot="block-guard-count", undecided=True))
     return obs
 
 
